@@ -978,7 +978,7 @@ impl<T> SincFixedIn<T> {
             target_ratio: self.target_ratio,
             chunk_size: self.chunk_size,
             needed_input_size: self.chunk_size,
-            current_buffer_fill: self.chunk_size,
+            current_buffer_fill: self.current_buffer_fill,
             saved_frames: 0,
             frames_needed: 0,
             buffer_len: self.buffer.first().map(|b| b.len()).unwrap_or(0),
